@@ -168,6 +168,8 @@ func selfBounded(fn *ssa.Function) bool {
 }
 
 func runC05(c *Ctx, r *Report) {
+	r.Rule("C05/error-classes", "each failure site named by the property wraps the sentinel the property names (timeout / auth / connection / privilege / NETCONF / operation / platform error)", 11)
+	checkErrorClasses(c, r, "C05")
 	r.Rule("C05/loops-cancellable", "every condition-less loop has an exit governed by ctx.Done/ctx.Err, the owner's done channel, the error of a bounded call, a counter bound or a socket read deadline", 12)
 	r.Rule("C05/gettimeout-table", "GetTimeout: -1 -> connection-wide, 0 -> MaxTimeout, else -> the argument", 3)
 	r.Rule("C05/deadline-source", "each blocking operation derives its context/timer from the specified timeout and passes that context to every context-taking call below it", 14)
